@@ -35,11 +35,13 @@ pub struct Misbehave {
     /// a second closure that misbehaves during the same evaluation (-1: none), with its own length
     pub target2: AtomicI64,
     pub len2: AtomicUsize,
+    /// >= 0: EVERY value closure (functions and invariant functions) returns a vector of this length
+    pub all_values: AtomicI64,
 }
 
 impl Misbehave {
     pub fn new() -> Arc<Misbehave> {
-        Arc::new(Misbehave { target: AtomicI64::new(-1), len: AtomicUsize::new(0), hit: AtomicBool::new(false), target2: AtomicI64::new(-1), len2: AtomicUsize::new(0) })
+        Arc::new(Misbehave { target: AtomicI64::new(-1), len: AtomicUsize::new(0), hit: AtomicBool::new(false), target2: AtomicI64::new(-1), len2: AtomicUsize::new(0), all_values: AtomicI64::new(-1) })
     }
 }
 
@@ -80,6 +82,10 @@ fn closure<T: Sc>(id: i64, mb: Arc<Misbehave>, f: impl Fn(T, &[T]) -> T + Send +
         if mb.target2.load(SeqCst) == id {
             return DVector::from_element(mb.len2.load(SeqCst), T::of(1.0));
         }
+        if id % 16 == 0 && mb.all_values.load(SeqCst) >= 0 {
+            mb.hit.store(true, SeqCst);
+            return DVector::from_element(mb.all_values.load(SeqCst) as usize, T::of(1.0));
+        }
         x.map(|xi| f(xi, a))
     })
 }
@@ -97,6 +103,10 @@ pub fn build_coded<T: Sc>(spec: &CodedSpec, alpha0: &[f64], mb: &Arc<Misbehave>)
                 }
                 if mbc.target2.load(SeqCst) == id {
                     return DVector::from_element(mbc.len2.load(SeqCst), T::of(1.0));
+                }
+                if mbc.all_values.load(SeqCst) >= 0 {
+                    mbc.hit.store(true, SeqCst);
+                    return DVector::from_element(mbc.all_values.load(SeqCst) as usize, T::of(1.0));
                 }
                 x.map(|xi| code_value::<T>(j, xi, &[]))
             });
@@ -162,10 +172,10 @@ pub fn random_coded_wide(rng: &mut Rng, max_n: usize) -> CodedSpec {
     let mut rest = names.clone();
     rng.shuffle(&mut rest);
     while !rest.is_empty() {
-        let k = rng.int(1, 10).min(rest.len());
+        let k = rng.int(1, 14).min(rest.len());
         let mut sub: Vec<String> = rest.drain(..k).collect();
         // sometimes share a parameter that belongs to another function as well
-        if sub.len() < 10 && rng.chance(0.3) {
+        if sub.len() < 14 && rng.chance(0.3) {
             let extra = rng.pick(&names).clone();
             if !sub.contains(&extra) {
                 let at = rng.below(sub.len() + 1);
@@ -180,6 +190,34 @@ pub fn random_coded_wide(rng: &mut Rng, max_n: usize) -> CodedSpec {
         funcs.insert(pos, CodedFn { params: vec![], deriv_order: vec![] });
     }
     let n = rng.int(1, max_n);
+    let x: Vec<f64> = (0..n).map(|i| 0.37 * i as f64 + rng.range(0.0, 0.1)).collect();
+    CodedSpec { names, funcs, x }
+}
+
+/// a small model with one function of more than ten parameters (a user type implementing the
+/// `BasisFunction` trait) next to ordinary closures
+pub fn random_coded_custom_arity(rng: &mut Rng) -> CodedSpec {
+    let np = rng.int(11, 15);
+    let mut names: Vec<String> = (0..np).map(|i| format!("q{i}")).collect();
+    rng.shuffle(&mut names);
+    let mut big = names.clone();
+    rng.shuffle(&mut big);
+    big.truncate(rng.int(11, np.min(14)));
+    let mut funcs = vec![CodedFn { deriv_order: rng.perm(big.len()), params: big.clone() }];
+    // the remaining parameters, and a few shared ones, in small closures
+    let mut rest: Vec<String> = names.iter().filter(|n| !big.contains(n)).cloned().collect();
+    rest.push(rng.pick(&names).clone());
+    rest.dedup();
+    for chunk in rest.chunks(2) {
+        let mut sub = chunk.to_vec();
+        sub.dedup();
+        funcs.push(CodedFn { deriv_order: rng.perm(sub.len()), params: sub });
+    }
+    if rng.chance(0.5) {
+        funcs.insert(rng.below(funcs.len() + 1), CodedFn { params: vec![], deriv_order: vec![] });
+    }
+    rng.shuffle(&mut funcs);
+    let n = funcs.len() + np + rng.int(2, 6);
     let x: Vec<f64> = (0..n).map(|i| 0.37 * i as f64 + rng.range(0.0, 0.1)).collect();
     CodedSpec { names, funcs, x }
 }
